@@ -22,7 +22,7 @@ type c14Size struct {
 
 var c14SizeNs = []int{0, 1, 2, 7, 8, 9, 15, 16, 17, 19, 20, 21, 31, 32, 33, 49, 50, 51, 63, 64, 65, 99, 100, 101, 127, 128, 129, 255, 256, 257, 511, 512, 513, 1000}
 
-const c14SizeFamilies = 21
+const c14SizeFamilies = 23
 
 func rep(s string, n int, sep string) string {
 	if n <= 0 {
@@ -201,6 +201,33 @@ func c14SizeCase(f, v, n int) (tpls map[string]string, extra map[string]interfac
 		}
 		tpls["t"] = strings.Repeat(unit, n+1)
 		want = "\x00unit" // (n+1) copies of whatever one copy renders to
+	case 21: // a list grown by n merges, then merged twice: the two results are independent
+		var sb strings.Builder
+		sb.WriteString("{% set l = [] %}")
+		for i := 0; i < n; i++ {
+			fmt.Fprintf(&sb, "{%% set l = l|merge(['e%d']) %%}", i)
+		}
+		tpls["t"] = sb.String() + "{% set a = l|merge(['A']) %}{% set b = l|merge(['B']) %}{{ a|last }}{{ b|last }}{{ a|length }}{{ l|length }}"
+		want = "AB" + strconv.Itoa(n+1) + strconv.Itoa(n)
+	case 22: // calls nested n deep, alternating, with arguments that give every level away
+		d := n % 13 // (depths 0 … 12: deep enough for anything that miscounts nesting, shallow enough to stay cheap)
+		e := "5"
+		for k := 1; k <= d; k++ {
+			if k%2 == 1 {
+				e = "min(1, " + e + ", 3)"
+			} else {
+				e = "max(9, " + e + ", 2)"
+			}
+		}
+		tpls["t"] = "{{ 0 + " + e + " }}"
+		switch {
+		case d == 0:
+			want = "5"
+		case d%2 == 1:
+			want = "1"
+		default:
+			want = "9"
+		}
 	case 18: // long number literals and long comments inside expressions' neighbourhood
 		tpls["t"] = "{{ 2." + strings.Repeat("0", n) + "0 > 1 ? 'g' : 'l' }}{# " + strings.Repeat("c", n) + " #}{{ 'q' }}"
 		want = "gq"
